@@ -400,8 +400,8 @@ def _run(ctx, quick, broken, exe, janet, workdir):
         "c_mirror_disagreements": sum(1 for r in recs if r["model"] and "MIRROR-" in r["model"]),
         "c_mirrors_run_in_driver": "string.c: find find-all split join slice trim triml trimr repeat reverse ascii-upper ascii-lower "
                                    "has-prefix? has-suffix? check-set bytes from-bytes; buffer.c: bit bit-set bit-clear bit-toggle fill popn blit push push-at; "
-                                   "array.c/tuple.c: insert remove slice concat tuple/join; boot.janet: take drop take-while take-until drop-while "
-                                   "drop-until filter count find-index map(1,2) reduce min max min-of max-of sum product reverse zipcoll partition distinct; string.c also replace replace-all "
+                                   "array.c/tuple.c: insert remove slice concat fill tuple/join; boot.janet: take drop take-while take-until drop-while "
+                                   "drop-until filter count find-index find index-of map(1,2,3 sequences) reduce reduce2 min max min-of max-of sum product reverse zipcoll partition distinct; string.c also replace replace-all "
                                    "(mirror = Spec compared on every generated call; "
                                    "a disagreement prints MIRROR-MISMATCH / MIRROR-UB and counts as a model difference)",
         "search_family_exhaustive_on_impl": {"pattern_text_pairs": kx_n, "calls": kx_n * 4, "differing_patterns": len(kx_bad)},
